@@ -28,6 +28,7 @@ CONSTANTS
   PurgeFences = TRUE
   SaveUnderLock = TRUE
   PurgeHoldsShard = TRUE
+  LoadUnderLock = TRUE
   AbsentPurge = FALSE
   Reapplies = FALSE
   Ghost = TRUE
@@ -36,5 +37,5 @@ INVARIANTS
   TypeOK
   I_SingleFlight I_BurstCostsOne I_NoEarlyRelease I_NoUntimelyPublish I_StoreMatchesKey I_HitServed I_LabelTruth I_OnlyStoredIsShared I_KeyMatch
   I_HitFresh I_AgeTruth I_RefetchAfterExpiry I_HfpPass I_HfpNeverCached I_HfpLapses
-  I_PurgeEffective I_NoOwnError I_PublishedIsPersisted I_NoWildRemoval
+  I_PurgeEffective I_NoOwnError I_PublishedIsPersisted I_NoWildRemoval I_NoWriteAfterPurge
   D_FetchingHasOwner D_OneOwner D_WaitersOnlyWhileFetching D_WaiterAccounted D_NoImmortal D_HitHasResponse D_Resident D_NoUnlockedRead
